@@ -11,10 +11,14 @@ MANIFEST = {
          "root is minimal, for every shape/index) and of timer.c (saturating clamp, due_in, pass semantics); the model is tied "
          "to the working tree by running model and implementation on the same op sequences (heap unit harness with BFS dump "
          "after every op; real library on a virtual clock) and diffing every line, plus monitors that evaluate the property "
-         "text directly on the implementation.",
+         "text directly on the implementation. The pointer-level model UvModel.HeapPtr (left/right/parent cells, heap_node_swap, "
+         "the path-bit walks) is proved to refine the array model (Props/HeapPtrRefine) and is tied to src/heap-inl.h by a "
+         "whole-memory differential after every op (harness/heapptr_ops.c, checks/heapptr_tie.py) with its own monitor.",
  "note": "Trusted: Lean kernel (axioms propext, Classical.choice, Quot.sound), pointer-tree = BFS-array abstraction "
          "(validated by dump equality), virtual clock interposition, clang/ASan. CLOCK_MONOTONIC monotonicity is assumed. "
-         "timer_counter wrap after 2^64 starts not modelled.",
+         "timer_counter wrap after 2^64 starts not modelled. The pointer-tree = BFS-array step is no longer only trusted: "
+         "UvModel.HeapPtr is proved to refine the array model (Props/HeapPtrRefine) and is tied to the C by the whole-memory "
+         "differential of checks/heapptr_tie.py (harness/heapptr_ops.c).",
  "design": "DESIGN.md §3 C04",
 }
 
@@ -315,14 +319,21 @@ def shrink_timer(ctx, texe, c):
 
 def run(ctx):
     ctx.trusted += ["tools/gen_lean.py (clang AST -> Lean for the loop-free kernels timer_clamp, timer_due_in, next_timeout, timer_less_than) and UvModel/CSem.lean",
-                    "translation of the pointer tree of heap-inl.h to its BFS array (validated by the BFS dump correspondence)",
+                    "translation of the pointer tree of heap-inl.h to its BFS array (validated by the BFS dump correspondence): "
+                    "proved in Props/HeapPtrRefine + tied by checks/heapptr_tie.py (the pointer-level model UvModel.HeapPtr is proved "
+                    "to refine the array model and is tied to the C by whole-memory differential, harness/heapptr_ops.c)",
                     "clang/ASan; the virtual clock (clock_gettime interposed in the harness)",
                     "timer_counter modelled as unbounded Nat (uint64 in C: wrap needs 2^64 starts)"]
     ctx.assumptions += ["CLOCK_MONOTONIC readings are non-decreasing (uv_now monotone is proved given that)"]
     ctx.gen_lean()      # Tie A: regenerate the kernels from /repo, GenEq re-proves them equal to the model
-    ctx.require_lean(["UvModel.GenEq", "UvModel.Props.C04Heap", "UvModel.Props.C04Timer"])
+    lean_ok = ctx.require_lean(["UvModel.GenEq", "UvModel.Props.C04Heap", "UvModel.Props.C04Timer"])
     hexe = ctx.harness("c04_heap", ["harness/c04_heap.c"], link_lib=False)
     texe = ctx.harness("c04_timer", ["harness/c04_timer.c"])
+    # src/heap-inl.h at the pointer level (left/right/parent cells) against UvModel.HeapPtr: checks/heapptr_tie.py
+    import heapptr_tie
+    ctx.trusted += ["harness/heapptr_ops.c (the real heap-inl.h inline functions on an array of nodes, ids printed)"]
+    if heapptr_tie.run(ctx, lean_ok):
+        return
     if ctx.replay:
         rp = json.loads(Path(ctx.replay).read_text())["replay"]
         if rp["mode"] == "heap" and hexe:
